@@ -71,8 +71,11 @@ def e_items(m):
     B = m.new_space("B", formula="lambda max, id=2: None")          # parameters named like built-ins
     B.new_cells("bf", formula="lambda t: max * t + id + len([t])")
     B.new_space("BC").new_cells("cf", formula="lambda: max + id * 10")
+    BN = B.new_space("BN", formula="lambda r: None")                 # nested parametric space reading the OUTER built-in-named parameters
+    BN.new_cells("bn", formula="lambda: max * 100 + id * 10 + r + len([r])")
+    BN.new_space("BD").new_cells("bd", formula="lambda: ('big' if max > 3 else 'small') + str(id)")
     S.B = B
-    S.new_cells("ob", formula="lambda t: B[3].bf(t) + B(4, 5).BC.cf()")
+    S.new_cells("ob", formula="lambda t: B[3].bf(t) + B(4, 5).BC.cf() + B[3].BN[t].bn() + B(4, 5).BN[2].bn() + len(B[5].BN[1].BD.bd())")
     return [("S", "o", ("T",)), ("P", "h", ("T",), (1,)), ("P", "hh", ("T",), (2, 5)), ("S", "ob", ("T",)), ("B", "bf", ("T",), (7,))]
 
 
